@@ -29,7 +29,7 @@ FLOORS = {"nontrivial": 0.3, "no-tie-everywhere": 0.15, "bnode-renamed": 0.1}
 def cases(draw, tier):
     odd = draw(st.integers(0, 3)) == 0     # classes that are themselves typed / used as values; literals spelling a node's IRI
     g = draw(gg.general(max_stmts=25, inst_props=(RDF_TYPE, RDF_TYPE, RDF_TYPE, "http://ex.org/isA"), class_typing=odd,
-                        iri_like_literals=odd, quirks=draw(gg.quirk_set(one_in=4))))
+                        iri_like_literals=odd, quirks=draw(gg.quirk_set(one_in=4)) + (["same_local_classes"] if draw(st.integers(0, 9)) == 0 else [])))
     cfg = draw(gg.switches())
     cfg["instances_report_mode"] = "mixed"
     target = draw(common.target_spec(g))
@@ -156,7 +156,15 @@ def check(case):
     except oracle.shexc.ShExCError:
         return discard("unparsable-output")
     if "__dup_labels__" in a or "__dup_labels__" in b:
-        return discard("label-collision")
+        # two classes share their local name, so two shapes share one label (C05-DUPLABEL): the canonical documents cannot tell
+        # them apart, but both runs must still print the same multiset of shapes (label, instances, predicates)
+        def sigs(text):
+            return sorted((sh.label, sh.n_instances, tuple(sorted(("^" if c.inverse else "") + c.pred for c in sh.constraints)))
+                          for sh in oracle.shexc.read(text).shapes)
+        if sigs(out1) != sigs(out2):
+            return violation("two classes share a local name; the multiset of shapes differs between the original and the transformed document:\n %s\n %s\n--- original ---\n%s\n--- transformed ---\n%s" % (
+                sigs(out1), sigs(out2), out1, out2), {"shared-local-name"}, True)
+        return ok({"shared-local-name"}, False)
     if case.get("rename"):
         rename_doc(a, case["rename"])      # blank-node labels can occur as value-set members ('^rdf:type [_:b0]')
     M, sel, label_of = common.model_for(case, triples)
